@@ -514,8 +514,9 @@ def r_local(E):
         for c in ast.walk(e):
             if isinstance(c, ast.Call) and isinstance(c.func, ast.Attribute) and c.func.attr == "tz_convert":
                 inner = c.func.value
+                from ..astutil import enorm as _enorm
                 if any(isinstance(x, ast.Call) and isinstance(x.func, ast.Attribute) and x.func.attr == "tz_localize"
-                       and norm(x.func.value) == "self.value" for x in ast.walk(inner)):
+                       and _enorm(x.func.value, fn) == "self.value" for x in ast.walk(inner)):
                     return True
         names = [x.id for x in ast.walk(e) if isinstance(x, ast.Name) and x.id not in ("pd", "np", "self", tzparam)]
         frame_names = [n for n in names if n in assigned]
